@@ -740,6 +740,10 @@ class FormSum(BaseForm):
 
         return super().__new__(cls)
 
+    def __reduce__(self):
+        """Reduce for pickling: __new__ needs the weighted components."""
+        return (FormSum, tuple(zip(self._components, self._weights)))
+
     def __init__(self, *components):
         """Initialise."""
         if len(components) == 1 and components[0][0] is self:
